@@ -47,6 +47,13 @@ func (m *objectMap) get(uuid string) (o Object, ok bool) {
 	return
 }
 
+func (m *objectMap) has(uuid string) (ok bool) {
+	m.RLock()
+	defer m.RUnlock()
+	_, ok = m.m[uuid]
+	return
+}
+
 func (m *objectMap) delete(uuid string) {
 	delete(m.m, uuid)
 }
@@ -110,6 +117,17 @@ func (s *objectStore) get(in Object) (out Object, ok bool) {
 	k := stype(in)
 	if _, ok = s.m[k]; ok {
 		out, ok = s.m[k].get(in.UUID())
+	}
+	return
+}
+
+func (s *objectStore) has(o Object) (ok bool) {
+	s.RLock()
+	defer s.RUnlock()
+
+	k := stype(o)
+	if _, ok = s.m[k]; ok {
+		ok = s.m[k].has(o.UUID())
 	}
 	return
 }
@@ -319,6 +337,11 @@ func (db *DB) exist(o Object) (ok bool, err error) {
 
 	if s, err = db.schema(o); err != nil {
 		return
+	}
+
+	// an accepted object whose write is pending exists
+	if s.asyncWritesEnabled() && db.asyncw.has(o) {
+		return true, nil
 	}
 
 	path = db.oPath(s, o)
